@@ -484,7 +484,18 @@ impl Writer {
     ) -> Result<KeyDirEntry, Error> {
         // Append log entry
         let datafile_entry = DataFileEntry { tstamp, key, value };
-        let index = self.writer.append(&datafile_entry)?;
+        let index = match self.writer.append(&datafile_entry) {
+            Ok(index) => index,
+            Err(e) => {
+                // The active file may now end with a partial entry. Never append after it,
+                // otherwise the entries that follow can not be found when the file is scanned.
+                // The entry may also still reach the file, so keep a statistics record for it
+                // to let a merge know that the file is not empty.
+                self.ctx.stats.entry(self.active_fileid).or_default();
+                self.new_active_datafile(self.active_fileid + 1)?;
+                return Err(e.into());
+            }
+        };
         // Sync immediately if the strategy is "always"
         if let SyncStrategy::Always = self.ctx.conf.sync {
             self.writer.sync()?;
